@@ -14,6 +14,7 @@ import (
 	"verif/sim/kernel"
 	"verif/sim/ref"
 	"verif/sim/replay"
+	"verif/sim/worlds/lookup"
 	"verif/sim/worlds/pool"
 	"verif/sim/worlds/sign"
 )
@@ -44,6 +45,8 @@ func runOne(world, prop, variant string, verifSeed uint64, idx int, src map[stri
 			sign.RunEnum(run, prop, idx)
 		case "pool":
 			pool.Run(run, prop)
+		case "lookup":
+			lookup.Run(run)
 		default:
 			fmt.Fprintf(os.Stderr, "simrun: unknown world %q\n", world)
 			os.Exit(2)
